@@ -45,7 +45,14 @@ FORMS = [
     ("MSG {0} %s }", ("x",)),
     ("MSG 100% sure", ()),  # no arguments: logging does not format, '%' stays literal
     ("MSG bad %s", ("<<BADSTR>>",)),  # an argument whose __str__ raises: may be lost, must not raise
+    # format and arguments that do not agree (ValueError / TypeError when formatted): the line may
+    # be lost, logging must not raise
+    ("MSG usage at 95%", ("x",)),
+    ("MSG %y", ("x",)),
+    ("MSG %(key", ("x",)),
+    ("MSG %d", ("x",)),
 ]
+DISAGREE = {"MSG usage at 95%", "MSG %y", "MSG %(key", "MSG %d"}
 
 
 class BadStr:
@@ -382,7 +389,7 @@ def execute(program, ch: Chooser) -> Result:  # noqa: C901, PLR0915
         traces_seen: dict[int, set] = {}
         for c in calls:
             i = c["where"]
-            if c["args"] and isinstance(c["args"][0], BadStr):
+            if (c["args"] and isinstance(c["args"][0], BadStr)) or c["msg"] in DISAGREE:
                 want_text = c["msg"]
             else:
                 want_text = c["msg"] % (c["args"][0] if len(c["args"]) == 1 and isinstance(c["args"][0], dict) else c["args"]) if c["args"] else c["msg"]
@@ -396,7 +403,7 @@ def execute(program, ch: Chooser) -> Result:  # noqa: C901, PLR0915
             if c["raised"]:
                 viols.append(viol("never-raises", witness, "no exception", c["raised"]))
                 continue
-            if c["args"] and isinstance(c["args"][0], BadStr):
+            if (c["args"] and isinstance(c["args"][0], BadStr)) or c["msg"] in DISAGREE:
                 continue  # format and arguments do not agree: only "never raises" applies
             recs = [r for r in c["records"] if isinstance(r.msg, str) and "MSG" in r.msg]
             if len(recs) != 1:
